@@ -612,6 +612,11 @@ impl<'a> Run<'a> {
 
     fn check_all(&mut self, live: &mut Live, step: &str) -> Vec<SearchOut> {
         let outs = self.search_all(live);
+        self.check_outs(live, step, &outs);
+        outs
+    }
+
+    fn check_outs(&mut self, live: &Live, step: &str, outs: &[SearchOut]) {
         for (qi, so) in outs.iter().enumerate() {
             self.logev(&format!("{} q{} -> {}", step, qi, so.brief()));
             self.check_one(live, step, qi, so);
@@ -633,7 +638,6 @@ impl<'a> Run<'a> {
         if ml > self.max_level_seen {
             self.max_level_seen = ml;
         }
-        outs
     }
 
     fn sq8_clause(&mut self) {
@@ -1225,7 +1229,8 @@ pub fn run_hnsw_case(case: &Case, case_json: &Value) -> RunOutcome {
             live = Some(l);
             break;
         }
-        let outs = run.check_all(&mut l, &step);
+        let outs = run.search_all(&mut l);
+        let mut lossy_reopen = false;
         if let Op::Reopen { sync } = op {
             run.out.count("reopen_comparisons", 1);
             for (qi, (a, b)) in last.iter().zip(outs.iter()).enumerate() {
@@ -1247,13 +1252,17 @@ pub fn run_hnsw_case(case: &Case, case_json: &Value) -> RunOutcome {
                             b.brief()
                         ),
                     );
+                    if !*sync {
+                        // everything after a lossy reopen is a consequence of it
+                        lossy_reopen = true;
+                        run.stop = true;
+                    }
                     break;
                 }
             }
-            if !*sync && run.out.violations.iter().any(|v| v.verdict == "reopen-changes-results" && v.sig.get("what").map(|s| s.as_str()) == Some("unsynced")) {
-                // everything after a lossy reopen is a consequence of it
-                run.stop = true;
-            }
+        }
+        if !lossy_reopen {
+            run.check_outs(&l, &step, &outs);
         }
         if matches!(op, Op::Sync) && case.image_check && !run.stop {
             run.compare_images(&l, &step, &outs);
